@@ -268,16 +268,16 @@ theorem wd_estimateLinked (g : Nat) (gs : GroupSpec) (D : List Loc)
   · simp only [wellDefined, Bool.and_true]
     apply all_mem_iff.mpr
     intro r hr
-    rcases List.mem_append.mp hr with hr | hr
+    rcases List.mem_cons.mp hr with hr | hr
+    · rw [hr]
+      exact List.mem_append_right _ hgp
     · rcases List.mem_append.mp hr with hr | hr
+      · obtain ⟨i, hi, rfl⟩ := List.mem_map.mp hr
+        exact List.mem_append_right _ (ham i (List.mem_range.mp hi)).2
       · obtain ⟨i, hi, rfl⟩ := List.mem_map.mp hr
         apply List.mem_append_left
         apply mem_defs_flatMap _ _ hi
         simp [defs]
-      · obtain ⟨i, hi, rfl⟩ := List.mem_map.mp hr
-        exact List.mem_append_right _ (ham i (List.mem_range.mp hi)).2
-    · rw [List.mem_singleton.mp hr]
-      exact List.mem_append_right _ hgp
 
 theorem lres_mem_estimateLinked (g : Nat) (gs : GroupSpec) {i : Nat} (hi : i < gs.aligned.length) :
     Loc.lresiduals g i ∈ defs (estimateLinked g gs) := by
